@@ -178,8 +178,8 @@ def verdicts(model, traces):
     return out
 
 
-def match_known(run, scenario, kind, chain):
-    """known finding = (scenarios, kinds, site prefix of the function chain)"""
+def match_known(run, scenario, kind, chain, detail=""):
+    """known finding = (scenarios, kinds, site prefixes of the function chain, detail substring)"""
     def sig(f):
         s = f.get("signature", {})
         scs = s.get("scenarios") or ([s["scenario"]] if s.get("scenario") else ["*"])
@@ -188,10 +188,10 @@ def match_known(run, scenario, kind, chain):
         kinds = s.get("kinds") or ([s["kind"]] if s.get("kind") else None)
         if kinds and kind not in kinds:
             return False
-        site = s.get("site")
-        if not site:
+        if s.get("detail") and s["detail"] not in detail:
             return False
-        return chain == site or chain.startswith(site + "<")
+        sites = s.get("sites") or ([s["site"]] if s.get("site") else [])
+        return any(chain == site or chain.startswith(site + "<") for site in sites)
     return run.match_known(sig)
 
 
@@ -301,8 +301,8 @@ def enumerate_variant(run, model, exe, variant, scen_list, pairs, stats, env=Non
 def report(run, failures, variant):
     nv = 0
     for (sc, kind, chain), cs in sorted(failures.items()):
-        f = match_known(run, sc, kind, chain)
         c = cs[0]
+        f = match_known(run, sc, kind, chain, c["detail"])
         if f:
             run.known(f, "%s %s at %s (%d runs, e.g. '%s')" % (sc, kind, chain, len(cs), c["case"]))
             continue
